@@ -53,7 +53,7 @@ def install(reg):
         if isinstance(t, DictT) or isinstance(t, RecT): return [(st, mk_bool('dict' in names))]
         if isinstance(t, SetT): return [(st, mk_bool('set' in names or 'frozenset' in names))]
         if t == EXC: return [(st, mk_bool(e.exc_matches(v.z, names)))]
-        h = reg.models.get('isinstance:' + t.name())
+        h = reg.models.get('isinstance:' + t.name()) or reg.models.get('isinstance:Py' + t.name())
         if h is not None: return h(e, st, args, kw, node)
         return None
 
